@@ -97,4 +97,14 @@ TEXT = {
         "level_text": "All 9216 combinations of wanted subset x SASL mechanism x advertised subset x server reply x SASL outcome x stray AUTHENTICATE are run as live sessions and compared line by line with a model of the negotiation (REQ as a set, AUTHENTICATE payload per mechanism, CAP END after every terminal step, HasCapability/SupportsCapability at every step); random sets of 20-120 long names force the REQ to be split over several lines.",
         "level_note": "Exhaustive only over the stated universe {a,b,c,sasl}; multi-line LS (CAP 302) is not generated because the client asks for plain CAP LS.",
     },
+    "C10": {
+        "technique": "property-based testing (rapid) on two clocks: in-package virtual-clock sequences against interval arithmetic over Hybrid's rule, and concurrent real-clock wire scenarios with delay-independent and one-sided timing oracles",
+        "level_text": "Virtual clock: 20k (quick) to 1.6M (thorough) sequences of up to 60 (length, idle gap) steps are pushed through rateLimit with gaps realised by moving lastsent back; after every step the penalty must lie in the interval the rule allows, never be negative, and the returned hold-back must be the line's own charge exactly when the penalty exceeds 10 s. Real clock: batches of concurrent scenarios measure socket-write timestamps of fresh default clients (plus Flood set / toggled) and check the window bound for every run of consecutive lines, 'held back at least its charge' whenever the replayed penalty must exceed 10 s, and 'not delayed' whenever it cannot (or Flood is set).",
+        "level_note": "The virtual-clock leg observes rateLimit, not the sleep in write(); the wire leg observes the sleep but is bounded by wall-clock cost (12 scenarios quick, ~290 thorough). The '>' vs '>=' boundary is not observable on a real clock.",
+    },
+    "C14": {
+        "technique": "property-based testing (rapid) of snapshot privacy (scribble + pointer identity + later-mutation oracles); generated concurrent histories checked for linearizability with porcupine against the relational model; same histories under the Go race detector",
+        "level_text": "Leg A: after a random history every value-returning tracker method is called; the value must share no pointer with related reads, stay equal to its deep copy while further operations run, and scribbling over everything reachable from it must leave the full observable state equal to the model. Leg B: 2-6 goroutines x 3-12 operations on one tracker, each call stamped and its return value recorded; porcupine must find a linearization consistent with the C12 model. Leg C: the same leg in a -race build; a race report with a goirc/state frame is a violation.",
+        "level_note": "Interleavings are sampled (GOMAXPROCS 2/4/16), not enumerated; porcupine's verdict is exact for each recorded history.",
+    },
 }
